@@ -264,7 +264,7 @@ PROPS['C01'] = dict(lean=['Mkdb.Props.C01'], facts=STORE_FACTS, runs=[dict(cmd='
 PROPS['C02'] = dict(lean=['Mkdb.Props.C02'], facts=STORE_FACTS, runs=[dict(cmd='db', proto='db', args=['c02']), dict(cmd='wal', proto='wal')],
     sig_filter=r'wal:.*|db:(contents-differ:after-recovery|recovery-failed:.*|valid-statement-refused:after-recovery|row-id:after-recovery|row-ids-not-increasing:after-recovery|schema-differs:after-recovery|panic:after-recovery|hang:after-recovery|select-failed:after-recovery)',
     
-    claim='Proof (partial): C02_recovery_reconstructs / C02_recovery_idempotent / C02_clean_shutdown - for every log of page-local records with increasing LSNs, every initial state and EVERY placement of page flushes (each page of the data file is the cached page as of an arbitrary earlier moment), the redo rule of WALBatch.replay (skip a record whose LSN is not newer than the page) reproduces exactly the state the acknowledged statements had built, and replaying again changes nothing; C02_log_roundtrip - the bytes wal.flush appends are read back by wal.read as exactly the records written (byte-level model). C02_concrete_replay_is_the_redo_rule / C02_concrete_recovery_reconstructs: on UPDATE and DELETE records the concrete recovery model (Engine.replayAll, the one compared with the implementation) is proved to be that redo rule page by page, so the schedule theorem is a theorem about it. C02_redo_of_unflushed_inserts: for INSERT statements (tree inserts with splits, root moves, catalog re-pointing) replaying the logged records on the store before them reproduces the live tables, catalog, row-id counter and allocation frontier; C02_recovery_of_a_flushed_database_changes_nothing: already-applied records (page LSN not older, or key present) are skipped or tolerated. Not covered by a theorem: records that touch several pages (tree inserts that split, catalog re-pointing after a root move, page allocation) and the header counters (row id, LSN) - for those the concrete model Mkdb.Engine.recover (same LSN rule, same tree code as C01) is compared with the implementation. Tie: per case a random DDL/DML history through RelationService with the flush timer replaced by explicit flushes at random points (never / sometimes / always), a crash (cache dropped, files kept) after random statements, the real InitStorage in a child process, optionally a second recovery, then SELECT * of every table, heap dump and further statements; the model must produce the same heap, log and outcomes, the judge compares every table with the in-memory spec of the acknowledged statements and checks row ids stay unique and increasing.',
+    claim='Proof (partial): C02_recovery_reconstructs / C02_recovery_idempotent / C02_clean_shutdown - for every log of page-local records with increasing LSNs, every initial state and EVERY placement of page flushes (each page of the data file is the cached page as of an arbitrary earlier moment), the redo rule of WALBatch.replay (skip a record whose LSN is not newer than the page) reproduces exactly the state the acknowledged statements had built, and replaying again changes nothing; C02_log_roundtrip - the bytes wal.flush appends are read back by wal.read as exactly the records written (byte-level model). C02_concrete_replay_is_the_redo_rule / C02_concrete_recovery_reconstructs: on UPDATE and DELETE records the concrete recovery model (Engine.replayAll, the one compared with the implementation) is proved to be that redo rule page by page, so the schedule theorem is a theorem about it. C02_redo_of_unflushed_inserts: for INSERT statements (tree inserts with splits, root moves, catalog re-pointing) replaying the logged records on the store before them reproduces the live tables, catalog, row-id counter and allocation frontier; C02_recovery_of_a_flushed_database_changes_nothing: already-applied records (page LSN not older, or key present) are skipped or tolerated. C02_acknowledged_statements_survive_an_unflushed_crash (end to end): for any list of INSERT / DELETE / UPDATE statements the plain in-memory model accepts, replaying the log they wrote on the store as it was before them ends in a store that abstracts to the plain database of the live run, with the live row-id counter, allocation frontier and catalog root; C02_mixed_history_is_redone at the storage level. Not covered by a theorem: records that touch several pages (tree inserts that split, catalog re-pointing after a root move, page allocation) and the header counters (row id, LSN) - for those the concrete model Mkdb.Engine.recover (same LSN rule, same tree code as C01) is compared with the implementation. Tie: per case a random DDL/DML history through RelationService with the flush timer replaced by explicit flushes at random points (never / sometimes / always), a crash (cache dropped, files kept) after random statements, the real InitStorage in a child process, optionally a second recovery, then SELECT * of every table, heap dump and further statements; the model must produce the same heap, log and outcomes, the judge compares every table with the in-memory spec of the acknowledged statements and checks row ids stay unique and increasing.',
     note='Trusted: Lean kernel (axioms propext, Classical.choice, Quot.sound only), the hand-written models, the harness and hooks, the OS file system behaving as a byte array per file with fsync making earlier writes durable. Theorems are about the models; the code is covered through the correspondence and the judge, which are bounded.',
     rule='12 (thorough 96) histories of 5-40 statements over up to 4 tables with flush probability in {0,15,40,100}%, crash probability in {10,25,50}% per statement, failing statements mixed in; wal codec: 40 (thorough 320) record lists, every cut position of short logs, random cuts and damaged bytes otherwise. Non-trivial: a history with at least one crash after an unflushed change; distinct by operation text.',
     assumptions=['a crash loses the page cache and nothing else: log records are fsynced before a statement returns (forceSync) and the data file is only written by flushPages', 'InitStorage runs alone (no concurrent session)'],
